@@ -951,20 +951,26 @@ def evaluate__tokenize(self: XPathFunction, context: ta.ContextType = None) -> t
         return []
     elif self.parser.version >= '3.1' and len(self) == 1:
         pattern = ' '
-        input_string = ' '.join(re.split('[ \t\n\r\f\v]+', input_string.strip(' \t\n\r\f\v')))
+        input_string = ' '.join(re.split('[ \t\n\r]+', input_string.strip(' \t\n\r')))
     else:
         pattern = self.get_argument(context, 1, required=True, cls=str)
 
     flags = 0
     if len(self) > 2:
         c: str
+        literal = False
         for c in self.get_argument(context, 2, required=True, cls=str):
             if c in 'smix':
                 flags |= getattr(re, c.upper())
-            elif c == 'q' and self.parser.version > '2':
-                pattern = re.escape(pattern)
+            elif c == 'q' and self.parser.version >= '3.0':
+                literal = True
             else:
                 raise self.error('FORX0001', "Invalid regular expression flag %r" % c)
+
+        if literal:
+            # the pattern is a literal string and the 'x' flag has no effect
+            pattern = re.escape(pattern)
+            flags &= ~re.X
 
     try:
         python_pattern = translate_pattern(pattern, flags, self.parser.xsd_version)
